@@ -533,5 +533,17 @@ func racePass(r *report.Run) {
 			r.Set("race_pass_summary", l)
 		}
 	}
+	if !strings.Contains(so.String(), "race-pass runs:") {
+		// the separate binary died (e.g. an unrecovered panic in a goroutine of a template): its verdict is lost, say so
+		r.HarnessError("race pass did not complete: %s", lastLine(se.String()))
+	}
 	r.Set("race_reports_with_interpreter_frames", reports)
+}
+
+func lastLine(s string) string {
+	l := strings.Split(strings.TrimSpace(s), "\n")
+	if len(l) > 6 {
+		l = l[len(l)-6:]
+	}
+	return strings.Join(l, " | ")
 }
